@@ -92,7 +92,9 @@ pub fn run(args: &Args, r: &mut Report) {
         poll interval persisted} x {CUP off, CUP on} as the scripted outcomes of one update check (sequences with 'forged' only \
         with CUP on), each run once per repetition through the real state machine (one-shot); the enumeration is repeated \
         (4x quick, 25x thorough) with different random details (statuses, documents, app sets), followed by start()-mode \
-        multi-check histories in which poll intervals set by one check govern the next.  Shape key = \
+        multi-check histories in which poll intervals set by one check govern the next, and by restart histories (check with \
+        X-Retry-After around the 86400 s clamp -> kill -> restart on the surviving store, optionally a store rejecting writes of one \
+        unrelated entry -> failing check) in which the stored interval must still suppress retries.  Shape key = \
         outcome sequence + prior-poll + CUP.  Non-trivial = any sequence other than a single 'success'."
         .into();
     r.require(&[
@@ -209,6 +211,66 @@ pub fn run(args: &Args, r: &mut Report) {
         }
         absorb(r, args, i, m, &run.w, case_desc(&case));
     }
+    // ---- restart histories: an interval dictated before a restart is still in force after it (a failed
+    // request of the next incarnation's first check is not retried), including the clamp boundary and a
+    // store that rejects writes of one unrelated entry
+    let nr = args.budget(2_400, 48_000);
+    let mut restart_judged = 0u64;
+    for j in 0..nr {
+        let i = 60_000_000 + j;
+        if args.skip(i) {
+            continue;
+        }
+        let mut rng = Rng::derive(args.seed, args.shard, 67, j);
+        let first = *rng.pick(&[Path::NoUpdate, Path::NoUpdate, Path::Install, Path::ParseError, Path::Deferred, Path::FailStatus]);
+        let second = *rng.pick(&[Path::FailTransport, Path::FailTransport, Path::FailStatus, Path::NoUpdate]);
+        let cfg = HistCfg {
+            start_mode: true,
+            cup: rng.bool(),
+            n_apps: 1 + rng.usize(2),
+            paths: vec![first, second],
+            cohorts: false,
+            deliveries: false,
+            random_params: false,
+            throttles: false,
+        };
+        let mut case = gen_history(&mut rng, &cfg);
+        let val: &[u8] = *rng.pick(&[&b"60"[..], b"3600", b"86399", b"86400", b"86401", b"99999999", b""]);
+        if let Some(RespSpec::Reply(rep)) = case.script.checks[0].attempts.last_mut() {
+            if !val.is_empty() && !rep.headers.iter().any(|h| h.0.eq_ignore_ascii_case("x-retry-after")) {
+                rep.headers.push(("X-Retry-After".into(), val.to_vec()));
+            }
+        }
+        // the second check's replies dictate nothing themselves
+        for a in case.script.checks[1].attempts.iter_mut() {
+            if let RespSpec::Reply(rep) = a {
+                rep.headers.retain(|h| !h.0.eq_ignore_ascii_case("x-retry-after"));
+            }
+        }
+        if rng.chance(1, 4) {
+            let k = *rng.pick(&["last_update_time", "consecutive_failed_update_checks"]);
+            case.fault.fail_keys.push(k.to_string());
+            case.shape.push(format!("failkey:{}", k));
+        }
+        case.stop_idle = 1;
+        case.shape.insert(0, format!("restart ra={}", String::from_utf8_lossy(val)));
+        case.sched = crate::sim::driver::Sched::Random;
+        let run = run_case_restart(&case, &[case.setup.clone()], &mut rng, 1);
+        r.eval(case.shape_key(), true);
+        r.interleavings.insert(run.sig);
+        let mut m = Mon::default();
+        mon_c06(&run.flow, &mut m, &mut backoffs);
+        // "in force" after a restart = what was stored: the interval the model holds must be the committed one
+        mon_state(&run.flow, &case.setup, Proj::Poll, &mut m);
+        if run.flow.restarts.len() == 1 && run.flow.checks.len() >= 2 {
+            restart_judged += 1;
+        }
+        if let Some(p) = &run.panicked {
+            report_panic(r, args, i, p, &run.w, case_desc(&case));
+        }
+        absorb(r, args, i, m, &run.w, case_desc(&case));
+    }
+    r.count("restart-histories-with-second-check", restart_judged);
     r.count("sequences-enumerated", enumerated);
     r.count("backoff-waits-observed", backoffs.len() as u64);
     if args.only_case.is_none() {
